@@ -186,6 +186,9 @@ def run_dependencies(r):
     check_narrow_casts(r, pre + "NUM", reach | entries)
     check_skipping_breaks(r, pre + "BREAK", reach | entries)
     check_integer_degree(r, pre + "INTDEG", reach | entries)
+    check_key_concatenation(r, pre + "KEY", reach | entries)
+    check_series_positions(r, pre + "POS", reach | entries)
+    check_sparse_zero_distances(r, pre + "SPARSE0", reach | entries)
     if any(q.startswith("pyrepseq.nn.") and q.rsplit(".", 1)[1] in ("_to_triplets", "kdtree", "_kdtree_leven") for q in reach):
         check_start_method(r, pre + "START-METHOD")
         ran.append("start-method")
@@ -769,3 +772,159 @@ def check_integer_degree(r, rule, functions, modules=("pyrepseq.stats",)):
                                      found=f"{show(x, 90)}: degree {d} in integer quantities; wraps around in 64-bit integers from about 55 000", key=f"integer degree {q.rsplit('.', 1)[1]} {show(strip_all(x), 60)}", lint=True)
                         continue      # report the outermost such term only
                 stack.extend(y for y in x if isinstance(y, tuple))
+
+
+def _stringified(t):
+    """is t a column / array converted to strings element-wise (x.astype(str), x.map(str), x.apply(str))?"""
+    t = strip(t)
+    if head(t) != "call":
+        return False
+    f = strip(t[1])
+    if head(f) == "attr" and f[2] in ("astype", "map", "apply") and t[2] and strip(t[2][0]) == ("glob", "builtins.str"):
+        return True
+    if head(f) == "attr" and f[2] in ("fillna", "reset_index", "copy") :
+        return _stringified(f[1])
+    return False
+
+
+def check_key_concatenation(r, rule, functions, modules=("pyrepseq.stats",)):
+    """A joint label of several columns identifies the row only if the cells can be recovered from it.  Gluing stringified columns together
+    with nothing in between - a.str.cat(b) with the default (empty) separator, a.astype(str) + b.astype(str) - gives ('CAS', 'SF') and
+    ('CASS', 'F'), or (1, 12) and (11, 2), the same label, and rows that differ then count as coinciding.  Checked in the count-statistics
+    module, where such labels are what coincidences are counted on.  Lint: recognisably wrong whatever surrounds it."""
+    from .rules import where_of
+    from .terms import is_const, show, strip_all, walk
+    seen = set()
+    for q in sorted(functions):
+        f_ = r.P.functions.get(q)
+        if f_ is None or f_.module not in modules:
+            continue
+        try:
+            s = r.A.summary(q)
+        except AnalysisBroken:
+            continue
+        pool = [(e, v) for e in s.events for v in e.data.values() if isinstance(v, tuple)] + [(None, s.ret)] + [(None, u) for lp in dict.values(s.loops) for u in lp.update.values() if isinstance(u, tuple)]
+        for e, v in pool:
+            for x in walk(("t", v)):
+                bad = None
+                if head(x) == "call":
+                    f = strip(x[1])
+                    if head(f) == "attr" and f[2] == "cat" and head(strip(f[1])) == "attr" and strip(f[1])[2] == "str":
+                        kw = dict(x[3])
+                        others = x[2][0] if x[2] else kw.get("others")
+                        sep = x[2][1] if len(x[2]) > 1 else kw.get("sep")
+                        if others is not None and not is_const(strip(others), None) and (sep is None or (is_const(strip(sep)) and not strip(sep)[2])):
+                            bad = "str.cat with an empty separator"
+                elif head(x) == "bin" and x[1] == "+" and _stringified(x[2]) and _stringified(x[3]):
+                    bad = "two stringified columns added with nothing in between"
+                if bad is None:
+                    continue
+                key = (q, show(strip_all(x), 70))
+                if key in seen:
+                    continue
+                seen.add(key)
+                node = e.node if e is not None else s.func.node
+                r.rep.ob(rule, q, False, "a joint label of several columns keeps the cells apart", where_of(r.P, s.func, node), expected="a non-empty separator between the cells (SEP.join(...), str.cat(.., sep=SEP))",
+                         found=f"{bad}: {show(x, 80)} - ('CAS', 'SF') and ('CASS', 'F') get the same label", key=f"glued key {q.rsplit('.', 1)[1]} {bad}", lint=True)
+
+
+_POSITION_MAKERS = {"numpy.flatnonzero", "numpy.where", "numpy.nonzero", "numpy.argsort", "numpy.arange", "builtins.range", "numpy.argwhere", "numpy.argmax", "numpy.argmin",
+                    "numpy.argpartition", "numpy.lexsort", "numpy.random.choice", "numpy.random.permutation", "numpy.random.randint", "numpy.searchsorted"}
+
+
+def check_series_positions(r, rule, functions):
+    """``pd.Series(x)`` keeps the index of a Series it is given, and ``series[k]`` with integers selects by *label*.  Subscripting such a
+    wrapper of an argument with computed positions (np.flatnonzero / np.where / argsort / arange / a random choice of positions) therefore
+    picks other rows - or raises KeyError - as soon as the caller's Series does not carry the labels 0..n-1, while lists, arrays and
+    default-index Series behave.  The positional spellings are .iloc[k], .to_numpy()[k], np.asarray(x)[k], or a wrapper built with
+    reset_index(drop=True) / from values.  Lint: recognisably wrong whatever surrounds it."""
+    from .rules import where_of
+    from .terms import show, strip_all, walk
+    seen = set()
+    for q in sorted(functions):
+        if q not in r.P.functions:
+            continue
+        try:
+            s = r.A.summary(q)
+        except AnalysisBroken:
+            continue
+        pool = [(e, v) for e in s.events for v in e.data.values() if isinstance(v, tuple)] + [(None, s.ret)]
+        for e, v in pool:
+            for x in walk(("t", v)):
+                if head(x) != "sub":
+                    continue
+                obj, idx = strip(x[1]), strip(x[2])
+                if not (head(obj) == "call" and strip(obj[1]) == ("glob", "pandas.Series") and len(obj[2]) == 1 and not obj[3] and head(strip(obj[2][0])) == "param"):
+                    continue
+                makers = [y for y in walk(("t", idx)) if head(y) == "call" and head(strip(y[1])) == "glob" and strip(y[1])[1] in _POSITION_MAKERS]
+                if not makers or head(idx) in ("cmp", "slice", "const"):
+                    continue
+                key = (q, show(strip_all(x), 70))
+                if key in seen:
+                    continue
+                seen.add(key)
+                node = e.node if e is not None else s.func.node
+                r.rep.ob(rule, q, False, "rows of the caller's collection are selected by position", where_of(r.P, s.func, node), expected=".iloc[positions] / np.asarray(x)[positions] / a wrapper with a fresh index",
+                         found=f"{show(x, 90)}: pd.Series(<argument>) keeps the argument's index and [integers] selects by label", key=f"label subscript {q.rsplit('.', 1)[1]} {show(strip_all(obj), 40)}", lint=True)
+
+
+_SPARSE_CTORS = {"scipy.sparse." + a + b for a in ("coo", "csr", "csc", "lil", "dok") for b in ("_matrix", "_array")}
+
+
+def check_sparse_zero_distances(r, rule, functions):
+    """A sparse matrix does not tell a stored 0 from an absent entry once its *structure* is read back: ``m.nonzero()``,
+    ``m.eliminate_zeros()`` (and arithmetic that prunes, behind them) drop every stored zero.  When the stored values are distances, the
+    zeros are the pairs of identical sequences (or of identical composition vectors) - exactly the neighbours at distance 0 the statements
+    count as neighbours.  Flagged: nonzero() / eliminate_zeros() on a value built from a sparse constructor whose data are not constant
+    non-zero (np.ones ...), or from KDTree.sparse_distance_matrix.  Lint: recognisably wrong whatever surrounds it."""
+    from .rules import where_of
+    from .terms import is_const, show, strip_all, walk
+    seen = set()
+
+    def distance_valued(t):
+        for y in walk(("t", t)):
+            if head(y) != "call":
+                continue
+            f = strip(y[1])
+            if head(f) == "attr" and f[2] == "sparse_distance_matrix":
+                return "KDTree.sparse_distance_matrix"
+            if head(f) == "glob" and f[1] in _SPARSE_CTORS and y[2]:
+                a0 = strip(y[2][0])
+                if head(a0) == "tuple" and len(a0[1]) == 2:
+                    data = strip(a0[1][0])
+                    if head(data) == "call" and head(strip(data[1])) == "glob" and strip(data[1])[1] in ("numpy.ones", "numpy.ones_like", "numpy.full", "numpy.full_like", "numpy.repeat"):
+                        continue
+                    if head(data) in ("list", "tuple", "const"):
+                        continue
+                    return f[1] + " with data " + show(data, 30)
+                if head(a0) == "param":
+                    return f[1] + " of an argument"
+        return None
+
+    for q in sorted(functions):
+        f_ = r.P.functions.get(q)
+        if f_ is None or f_.module not in ("pyrepseq.nn", "pyrepseq.clustering", "pyrepseq.distance"):
+            continue
+        try:
+            s = r.A.summary(q)
+        except AnalysisBroken:
+            continue
+        pool = [(e, v) for e in s.events for v in e.data.values() if isinstance(v, tuple)] + [(None, s.ret)]
+        for e, v in pool:
+            for x in walk(("t", v)):
+                if head(x) != "call":
+                    continue
+                f = strip(x[1])
+                if not (head(f) == "attr" and f[2] in ("nonzero", "eliminate_zeros")):
+                    continue
+                src = distance_valued(f[1])
+                if src is None:
+                    continue
+                key = (q, f[2], src)
+                if key in seen:
+                    continue
+                seen.add(key)
+                node = e.node if e is not None else s.func.node
+                r.rep.ob(rule, q, False, "neighbour pairs at distance 0 survive a pass through a sparse matrix", where_of(r.P, s.func, node),
+                         expected="the row / column arrays of the constructor (m.row, m.col), or data that cannot be 0", found=f".{f[2]}() on a matrix from {src}: stored zeros - the pairs at distance 0 - are dropped",
+                         key=f"sparse zeros {q.rsplit('.', 1)[1]} {f[2]}", lint=True)
